@@ -76,6 +76,18 @@ def syntax_check(d, path, mode):
     return errs
 
 
+def regenerate_over_existing(tool, d, pre, out, name, tag):
+    """the output path 'receives the processed header' also when a (longer) file is already there"""
+    p = os.path.join(d, name)
+    open(p, "w").write(out + "\n/* left over from an earlier, longer header */\ntypedef int stale_tail_t;\n" * 3)
+    run_tool(tool, d, pre, ["--config", "cb.toml", "--crate", "api", "-o", p])
+    got = open(p).read() if os.path.exists(p) else None
+    if got != out:
+        what = "missing" if got is None else (f"{len(got)} bytes, the processed header has {len(out)}; it still ends with the previous file's tail" if got.startswith(out) else "different content")
+        return [{"prop": "C18", "key": f"C18:{tag}output-path-not-replaced", "what": f"writing the processed header to an output path that already holds a longer file does not leave exactly the processed header there: {what}"}]
+    return []
+
+
 def check_model(tool, seed, idx, known, n_repro=4, mode="C"):
     """returns dict with violations (list of {prop, key, what}), info flags"""
     if mode == "C++":
@@ -118,6 +130,7 @@ def check_model(tool, seed, idx, known, n_repro=4, mode="C"):
             digests.add(hashlib.sha1(open(o2, "rb").read()).hexdigest())
     if len(digests) > 1:
         viol.append({"prop": "C18", "key": "C18:not-reproducible", "what": f"{len(digests)} different outputs over {n_repro + 1} runs of the tool in fresh processes on the same input and configuration"})
+    viol += regenerate_over_existing(tool, d, pre, out, "stale.h", "")
     # ---- C18.3 foreign declarations kept, unmodified, in order
     posn = -1
     for f in foreign:
@@ -266,6 +279,7 @@ def check_model_cpp(tool, seed, idx, known, n_repro=4):
         run_tool(tool, d, pre, ["--config", "cb.toml", "--crate", "api", "--output", o2])
         if os.path.exists(o2):
             digests.add(hashlib.sha1(open(o2, "rb").read()).hexdigest())
+    viol += regenerate_over_existing(tool, d, pre, out, "stale.hpp", "c++:")
     if len(digests) > 1:
         viol.append({"prop": "C18", "key": "C18:c++:not-reproducible", "what": f"{len(digests)} different outputs over {n_repro + 1} runs of the tool in fresh processes on the same C++ input and configuration"})
     posn = -1
@@ -369,9 +383,12 @@ def argv_case(tool, seed, idx):
         pre += [rng.choice(["-c", "--config"]), cfg]
     if nightly:
         pre = (["+nightly"] + pre) if rng.random() < 0.5 else (pre + ["+nightly"])
+    preexisting = out_flag is not None and rng.random() < 0.5
+    if preexisting:
+        open(out_path, "w").write("/* an older, longer header */\n" + "typedef int stale_t;\n" * 4000)
     r, argv, via = run_tool(tool, d, pre, post)
     viol = []
-    case = {"pre": pre, "post": post}
+    case = {"pre": pre, "post": post, "output_preexisting": preexisting}
     if r.returncode != 0:
         viol.append({"prop": "C18", "key": "C18:argv:tool-fails", "what": f"exit {r.returncode} for arguments {pre} -- {post}: {r.stderr[:200]}"})
     else:
@@ -385,6 +402,8 @@ def argv_case(tool, seed, idx):
                 viol.append({"prop": "C18", "key": "C18:argv:output", "what": f"the processed header was not written to the path given with {out_flag}"})
             else:
                 produced = open(out_path).read()
+                if "stale_t" in produced:
+                    viol.append({"prop": "C18", "key": "C18:output-path-not-replaced", "what": "the output path held an older, longer file; after the run it still contains part of it"})
                 if r.stdout.strip():
                     viol.append({"prop": "C18", "key": "C18:argv:output", "what": "output was printed to stdout although an output path was given"})
         else:
